@@ -19,18 +19,28 @@ def program(tname, leaves):
     return T[tname](**leaves)
 
 
-def try_ref(sx, overrides=None):
+def _try_ref(sx, overrides=None):
     try:
         return R.ref_meaning(sx, overrides), ""
     except R.Invalid as ex:
         return None, str(ex)
 
 
-def try_impl(circ, overrides=None):
+def _try_impl(circ, overrides=None):
     try:
         return R.impl_meaning(circ, overrides), ""
     except R.Invalid as ex:
         return None, str(ex)
+
+
+def try_ref(sx, overrides=None):
+    """Reference meaning of the program.  The oracle is evaluated on realised values with the tracer
+    suspended (it is not code under test; realising its inputs forks exactly as tracing it would)."""
+    return concretely(_try_ref, sx, overrides)
+
+
+def try_impl(circ, overrides=None):
+    return concretely(_try_impl, circ, overrides)
 
 
 def statements(node):
@@ -87,3 +97,38 @@ def header_equal(a, b, macros=True):
     if macros and (list(a.macros.keys()) != list(b.macros.keys()) or any(a.macros[k] != b.macros[k] for k in a.macros)):
         return "macros differ"
     return ""
+
+
+# ---------------------------------------------------------------------------------------
+# tracing control
+
+def concretely(fn, *args, **kwargs):
+    """Call fn on fully realised arguments with CrossHair's tracing suspended.
+
+    Used only for computations whose inputs the code under test has already forced to be
+    concrete (e.g. parsing a text that str() produced): with concrete inputs the traced run
+    has exactly one path, so suspending the tracer changes nothing but speed.  Outside
+    CrossHair this is a plain call."""
+    try:
+        from crosshair.tracers import is_tracing, NoTracing
+        from crosshair.core import deep_realize
+    except Exception:  # pragma: no cover
+        return fn(*args, **kwargs)
+    if not is_tracing():
+        return fn(*args, **kwargs)
+    args = deep_realize(args)
+    kwargs = deep_realize(kwargs)
+    with NoTracing():
+        return fn(*args, **kwargs)
+
+
+def concrete(value):
+    """Realise a value (deeply) when running under CrossHair; identity otherwise."""
+    try:
+        from crosshair.tracers import is_tracing
+        from crosshair.core import deep_realize
+    except Exception:  # pragma: no cover
+        return value
+    if not is_tracing():
+        return value
+    return deep_realize(value)
